@@ -477,3 +477,351 @@ Proof. exists [2; 5]%nat, 2%nat, 3%nat, 5%nat. repeat split. lia. Qed.
 Theorem spectrum_shape_all shape n n_omega :
   infidelity_derivative_accepts shape n n n_omega = infidelity_accepts shape n n n_omega.
 Proof. reflexivity. Qed.
+
+(* ================================================================== F. derivative of the Liouville representation *)
+Section LiouvilleDeriv.
+Variable d : nat.
+
+(* Q_jk = Re tr(Q^dagger C_j Q C_k)   (superoperator.liouville_representation) *)
+Definition fliou (Q Cj Ck : fmat) : R := fst (ftr d (fmul d (fadj Q) (fmul d Cj (fmul d Q Ck)))).
+
+Lemma fadj_invol_feq (A : fmat) : feq d (fadj (fadj A)) A.
+Proof. intros i j _ _. apply fadj_invol. Qed.
+Lemma fst_cconj (z : Cx) : fst (cconj' z) = fst z. Proof. reflexivity. Qed.
+
+(* Re tr(Q^dagger C_j dQ C_k) = Re tr(dQ^dagger C_j Q C_k) for Hermitian C_j, C_k *)
+Lemma herm_sym_trace (Q dQ Cj Ck : fmat) : fherm d Cj -> fherm d Ck ->
+  fst (ftr d (fmul d (fadj Q) (fmul d Cj (fmul d dQ Ck)))) = fst (ftr d (fmul d (fadj dQ) (fmul d Cj (fmul d Q Ck)))).
+Proof.
+  intros Hj Hk. rewrite <- (fst_cconj (ftr d (fmul d (fadj dQ) _))). rewrite <- ftr_adj.
+  assert (E : ftr d (fmul d (fadj Q) (fmul d Cj (fmul d dQ Ck)))
+              = ftr d (fadj (fmul d (fadj dQ) (fmul d Cj (fmul d Q Ck))))); [|rewrite E; reflexivity].
+  (* (dQ^dagger Cj Q Ck)^dagger = Ck Q^dagger Cj dQ, cyclic to Q^dagger Cj dQ Ck *)
+  transitivity (ftr d (fmul d Ck (fmul d (fadj Q) (fmul d Cj dQ)))).
+  - rewrite (ftr_cyclic d Ck). apply ftr_ext. rewrite <- !fmul_assoc. reflexivity.
+  - apply ftr_ext. symmetry.
+    rewrite fadj_mul. rewrite (fadj_mul d Cj). rewrite (fadj_mul d Q Ck).
+    assert (Hj' : feq d (fadj Cj) Cj) by exact Hj. assert (Hk' : feq d (fadj Ck) Ck) by exact Hk.
+    rewrite Hj', Hk'. rewrite (fadj_invol_feq dQ).
+    rewrite <- !fmul_assoc. reflexivity.
+Qed.
+
+Lemma cderive_fmul_const_l (A : fmat) (Qf : R -> fmat) (dQ : fmat) u :
+  (forall i j, (i < d)%nat -> (j < d)%nat -> cderive (fun v => Qf v i j) u (dQ i j)) ->
+  forall i j, (i < d)%nat -> (j < d)%nat -> cderive (fun v => fmul d A (Qf v) i j) u (fmul d A dQ i j).
+Proof.
+  intros H i j Hi Hj. unfold fmul.
+  apply (cderive_csumn d (fun k v => cmul' (A i k) (Qf v k j))). intros k Hk. apply cderive_mul_l. auto.
+Qed.
+Lemma cderive_fmul_const_r (A : fmat) (Qf : R -> fmat) (dQ : fmat) u :
+  (forall i j, (i < d)%nat -> (j < d)%nat -> cderive (fun v => Qf v i j) u (dQ i j)) ->
+  forall i j, (i < d)%nat -> (j < d)%nat -> cderive (fun v => fmul d (Qf v) A i j) u (fmul d dQ A i j).
+Proof.
+  intros H i j Hi Hj. unfold fmul.
+  apply (cderive_csumn d (fun k v => cmul' (Qf v i k) (A k j))). intros k Hk. apply cderive_mul_r. auto.
+Qed.
+
+(* product rule on the trace + Hermitian symmetrisation *)
+Theorem fliou_derive (Qf : R -> fmat) (dQ : fmat) u (Cj Ck : fmat) :
+  fherm d Cj -> fherm d Ck ->
+  (forall i j, (i < d)%nat -> (j < d)%nat -> cderive (fun v => Qf v i j) u (dQ i j)) ->
+  is_derive (fun v => fliou (Qf v) Cj Ck) u
+            (2 * fst (ftr d (fmul d (fadj dQ) (fmul d Cj (fmul d (Qf u) Ck))))).
+Proof.
+  intros Hj Hk HQ.
+  assert (HX : forall i j, (i < d)%nat -> (j < d)%nat ->
+            cderive (fun v => fmul d Cj (fmul d (Qf v) Ck) i j) u (fmul d Cj (fmul d dQ Ck) i j)).
+  { apply (cderive_fmul_const_l Cj (fun v => fmul d (Qf v) Ck) (fmul d dQ Ck)).
+    apply cderive_fmul_const_r. exact HQ. }
+  assert (D : cderive (fun v => ftr d (fmul d (fadj (Qf v)) (fmul d Cj (fmul d (Qf v) Ck)))) u
+     (cadd' (ftr d (fmul d (fadj dQ) (fmul d Cj (fmul d (Qf u) Ck))))
+            (ftr d (fmul d (fadj (Qf u)) (fmul d Cj (fmul d dQ Ck)))))).
+  { replace (cadd' (ftr d (fmul d (fadj dQ) (fmul d Cj (fmul d (Qf u) Ck))))
+                   (ftr d (fmul d (fadj (Qf u)) (fmul d Cj (fmul d dQ Ck)))))
+      with (csumn' d (fun a => csumn' d (fun b =>
+              cadd' (cmul' (cconj' (dQ b a)) (fmul d Cj (fmul d (Qf u) Ck) b a))
+                    (cmul' (cconj' (Qf u b a)) (fmul d Cj (fmul d dQ Ck) b a))))).
+    2:{ unfold ftr. symmetry. eapply eq_trans; [symmetry; apply csumn_add|].
+        apply csumn_ext. intros a _. cbv beta.
+        change (fmul d (fadj dQ) (fmul d Cj (fmul d (Qf u) Ck)) a a)
+          with (csumn' d (fun b => cmul' (fadj dQ a b) (fmul d Cj (fmul d (Qf u) Ck) b a))).
+        change (fmul d (fadj (Qf u)) (fmul d Cj (fmul d dQ Ck)) a a)
+          with (csumn' d (fun b => cmul' (fadj (Qf u) a b) (fmul d Cj (fmul d dQ Ck) b a))).
+        eapply eq_trans; [symmetry; apply csumn_add|]. apply csumn_ext. intros b _. reflexivity. }
+    unfold ftr.
+    apply (cderive_csumn d (fun a v => fmul d (fadj (Qf v)) (fmul d Cj (fmul d (Qf v) Ck)) a a)). intros a Ha.
+    unfold fmul at 1.
+    apply (cderive_csumn d (fun b v => cmul' (fadj (Qf v) a b) (fmul d Cj (fmul d (Qf v) Ck) b a))). intros b Hb.
+    apply cderive_mul. unfold fadj. apply cderive_conj. auto. auto. }
+  destruct D as [D _]. unfold fliou. evar_last. exact D.
+  simpl. rewrite (herm_sym_trace (Qf u) dQ Cj Ck Hj Hk). ring.
+Qed.
+
+(* the model's contraction 'htsba,tjkba->thsjk' (.real, *2) is 2 Re tr(PD^dagger X) *)
+Lemma ld_entry_trace (PD X : Mat (T:=R)) :
+  ld_entry RO d PD X = 2 * fst (ftr d (fmul d (fadj (toF PD)) (toF X))).
+Proof.
+  unfold ld_entry. unfold o2; simpl. replace (1 + 1) with 2 by ring. f_equal. f_equal.
+  unfold ftr, fmul. rewrite csumn_swap. apply csumn_ext. intros a _. apply csumn_ext. intros b _. reflexivity.
+Qed.
+
+(* ---- Duhamel's formula as the (only) analytic assumption ---- *)
+Section Duhamel.
+(* propagators Q_s, Q_{s+1} (before / after segment s) and Q_{t+1}, t >= s; eigen-data of segment s;
+   the control operator in the eigenbasis *)
+Variables (Qs Qs1 Qt1 V : Mat (T:=R)) (ev : list R) (dt : R) (Cbar : Mat (T:=R)).
+(* the propagator of segment s as a function of the control amplitude u = u_h(t_s) *)
+Variable Pu : R -> fmat.
+Variable u0 : R.
+(* Duhamel: d/du exp(-i (H + (u - u0) C_h) dt) at u0 is -i P V (A o Cbar) V^dagger with
+   A_ij = int_0^dt e^{i Omega_ij t} dt -- the value the model computes as U_deriv *)
+Hypothesis Duhamel : forall i j, (i < d)%nat -> (j < d)%nat ->
+  cderive (fun u => Pu u i j) u0 (toF (u_deriv RO d Qs Qs1 V ev dt Cbar) i j).
+Hypothesis Pu_u0 : feq d (fmul d (Pu u0) (toF Qs)) (toF Qs1).
+Hypothesis Qs1_unitary : funitary d (toF Qs1).
+
+(* Q_{t+1}(u) = (Q_{t+1} Q_{s+1}^dagger) P_s(u) Q_s : later segments do not depend on u *)
+Definition Qt1_of (u : R) : fmat :=
+  fmul d (fmul d (toF Qt1) (fadj (toF Qs1))) (fmul d (Pu u) (toF Qs)).
+
+Lemma Qt1_of_u0 : feq d (Qt1_of u0) (toF Qt1).
+Proof.
+  unfold Qt1_of. rewrite Pu_u0. rewrite <- fmul_assoc.
+  destruct Qs1_unitary as [H _]. rewrite H. apply fmul_id_r.
+Qed.
+
+Theorem liouville_deriv_Duhamel (Cj Ck : Mat (T:=R)) :
+  fherm d (toF Cj) -> fherm d (toF Ck) ->
+  is_derive (fun u => fliou (Qt1_of u) (toF Cj) (toF Ck)) u0
+    (ld_entry RO d (mmul RO d Qt1 (u_deriv_transformed RO d Qs Qs1 (u_deriv RO d Qs Qs1 V ev dt Cbar)))
+                   (mmul RO d (mmul RO d Cj Qt1) Ck)).
+Proof.
+  intros Hj Hk.
+  set (UD := u_deriv RO d Qs Qs1 V ev dt Cbar) in *.
+  set (Rm := fmul d (toF Qt1) (fadj (toF Qs1))).
+  set (dQ := fmul d Rm (fmul d (toF UD) (toF Qs))).
+  assert (HQ : forall i j, (i < d)%nat -> (j < d)%nat -> cderive (fun v => Qt1_of v i j) u0 (dQ i j)).
+  { unfold Qt1_of, dQ. fold Rm.
+    apply (cderive_fmul_const_l Rm (fun v => fmul d (Pu v) (toF Qs)) (fmul d (toF UD) (toF Qs))).
+    apply cderive_fmul_const_r. exact Duhamel. }
+  evar_last. apply (fliou_derive Qt1_of dQ u0 (toF Cj) (toF Ck) Hj Hk HQ).
+  rewrite ld_entry_trace. f_equal. f_equal. apply ftr_ext.
+  (* both sides: (model PD)^dagger (Cj Q_{t+1} Ck) *)
+  assert (E1 : feq d (toF (mmul RO d Qt1 (u_deriv_transformed RO d Qs Qs1 UD))) dQ).
+  { unfold u_deriv_transformed, dQ, Rm. rewrite toF_mmul. rewrite toF_mmul. rewrite toF_mmul. rewrite toF_madj.
+    rewrite <- !fmul_assoc. reflexivity. }
+  assert (E2 : feq d (toF (mmul RO d (mmul RO d Cj Qt1) Ck)) (fmul d (toF Cj) (fmul d (Qt1_of u0) (toF Ck)))).
+  { rewrite toF_mmul. rewrite toF_mmul. rewrite Qt1_of_u0. rewrite <- fmul_assoc. reflexivity. }
+  rewrite E1, E2. reflexivity.
+Qed.
+End Duhamel.
+End LiouvilleDeriv.
+
+(* ================================================================== G'. identifier selection = slice *)
+Section Slice.
+Context {T B : Type} (Op : Ops T B).
+
+Lemma select_length {A} (dflt : A) idx l : List.length (select dflt idx l) = List.length idx.
+Proof. unfold select. apply map_length. Qed.
+Lemma nth_map_in {A C} (f : A -> C) l i (da : A) (dc : C) : (i < List.length l)%nat ->
+  nth i (map f l) dc = f (nth i l da).
+Proof. intros H. rewrite (nth_indep _ dc (f da)) by (rewrite map_length; auto). apply map_nth. Qed.
+Lemma nth_select {A} (dflt : A) idx l a : (a < List.length idx)%nat ->
+  nth a (select dflt idx l) dflt = nth (nth a idx O) l dflt.
+Proof. intros H. unfold select. apply (nth_map_in (fun i => nth i l dflt) idx a O dflt H). Qed.
+Lemma build_ext' {A} n (f g : nat -> A) : (forall i, (i < n)%nat -> f i = g i) -> build n f = build n g.
+Proof. intros H. unfold build. apply map_ext_in. intros i Hi. apply in_seq in Hi. apply H. lia. Qed.
+Lemma build_nth_idx {A} (f : nat -> A) idx :
+  build (List.length idx) (fun a => f (nth a idx O)) = map f idx.
+Proof.
+  induction idx as [|x r IH]; [reflexivity|].
+  unfold build in *. simpl. f_equal. rewrite <- seq_shift, map_map. exact IH.
+Qed.
+Lemma select_build {A} (dflt : A) n f idx : List.Forall (fun i => (i < n)%nat) idx ->
+  select dflt idx (build n f) = map f idx.
+Proof.
+  intros H. unfold select. apply map_ext_in. intros i Hi.
+  rewrite List.Forall_forall in H. apply nth_build. auto.
+Qed.
+Lemma select_build_idx {A} (dflt : A) n f idx : List.Forall (fun i => (i < n)%nat) idx ->
+  select dflt idx (build n f) = build (List.length idx) (fun a => f (nth a idx O)).
+Proof. intros H. rewrite select_build by auto. symmetry. apply build_nth_idx. Qed.
+Lemma map_build {A C} (g : A -> C) n (f : nat -> A) : map g (build n f) = build n (fun a => g (f a)).
+Proof. unfold build. apply map_map. Qed.
+(* rows of n_coeffs_deriv: selecting columns then reading = reading at the selected column *)
+Lemma nth2_select2 {A} (ncd : list (list (list A))) n_idx c_idx a h :
+  (a < List.length n_idx)%nat -> (h < List.length c_idx)%nat ->
+  nth2 [] (select [] n_idx (map (select [] c_idx) ncd)) a h = nth2 [] ncd (nth a n_idx O) (nth h c_idx O).
+Proof.
+  intros Ha Hh. unfold nth2. rewrite nth_select by auto.
+  destruct (Nat.lt_ge_cases (nth a n_idx O) (List.length ncd)) as [Hi|Hi].
+  - rewrite (nth_map_in (select [] c_idx) ncd _ [] [] Hi). apply nth_select; auto.
+  - rewrite (nth_overflow (map _ ncd)) by (rewrite map_length; auto).
+    rewrite (nth_overflow ncd) by auto. destruct (nth h c_idx O); destruct h; reflexivity.
+Qed.
+
+(* Selecting noise operators (with their sensitivities and rows of n_coeffs_deriv) and control
+   operators (columns of n_coeffs_deriv) by index arrays and then differentiating gives the
+   corresponding slice of the full derivative: every (a, h) block depends on noise operator a and
+   control operator h only (all other operators enter only through the spectral data).          *)
+Theorem slice_commutes d thr th3 evs Vs Qs omega basis nopers copers ncoeffs dts ts use_ncd ncd n_idx c_idx :
+  List.Forall (fun i => (i < List.length nopers)%nat) n_idx -> List.Forall (fun i => (i < List.length copers)%nat) c_idx ->
+  ctrlmat_deriv Op d thr th3 evs Vs Qs omega basis (select [] n_idx nopers) (select [] c_idx copers)
+                (select [] n_idx ncoeffs) dts ts use_ncd (select [] n_idx (map (select [] c_idx) ncd))
+  = select [] n_idx (map (select [] c_idx)
+      (ctrlmat_deriv Op d thr th3 evs Vs Qs omega basis nopers copers ncoeffs dts ts use_ncd ncd)).
+Proof.
+  intros Hn Hc. unfold ctrlmat_deriv. cbv zeta.
+  set (G := List.length dts). set (nj := List.length basis). set (no := List.length omega).
+  set (P := pair_of Op d G nj no (sh_phase Op ts omega G) (sh_BT Op d Vs basis) (sh_ints Op d thr evs dts omega)
+              (sh_DIs Op d th3 evs dts omega) (sh_Ls Op d Qs basis) Vs).
+  set (Fc := ctrl_data Op d G nj evs Vs Qs dts (sh_X Op d Qs basis G)).
+  rewrite !select_length.
+  (* right-hand side: read the full array at the selected indices *)
+  rewrite map_build. rewrite select_build_idx by assumption.
+  apply build_ext'. intros a Ha.
+  rewrite select_build_idx by assumption.
+  apply build_ext'. intros h Hh.
+  unfold nthm, nthv. rewrite !nth_select by assumption. rewrite nth2_select2 by assumption.
+  f_equal.
+  assert (Hh' : (nth h c_idx O < List.length copers)%nat).
+  { rewrite List.Forall_forall in Hc. apply Hc. apply nth_In. exact Hh. }
+  rewrite (nth_map_in Fc (select [] c_idx copers) h [] ([], [])) by (rewrite select_length; exact Hh).
+  rewrite (nth_map_in Fc copers _ [] ([], []) Hh'). rewrite nth_select by assumption. reflexivity.
+Qed.
+End Slice.
+
+(* ================================================================== H. the general branch is the Duhamel commutator integral *)
+(* complex-valued Riemann integral, componentwise *)
+Definition cRInt (f : R -> Cx) (a b : R) (l : Cx) : Prop :=
+  is_RInt (fun t => fst (f t)) a b (fst l) /\ is_RInt (fun t => snd (f t)) a b (snd l).
+Lemma cRInt_ext f g a b l : (forall t, f t = g t) -> cRInt f a b l -> cRInt g a b l.
+Proof.
+  intros E [H1 H2]. split; [eapply is_RInt_ext; [|exact H1] | eapply is_RInt_ext; [|exact H2]];
+    intros t _; cbv beta; rewrite E; reflexivity.
+Qed.
+Lemma cRInt_add f g a b lf lg : cRInt f a b lf -> cRInt g a b lg ->
+  cRInt (fun t => cadd' (f t) (g t)) a b (cadd' lf lg).
+Proof. intros [F1 F2] [G1 G2]. split; simpl; apply @is_RInt_plus; assumption. Qed.
+Lemma cRInt_sub f g a b lf lg : cRInt f a b lf -> cRInt g a b lg ->
+  cRInt (fun t => csub' (f t) (g t)) a b (csub' lf lg).
+Proof. intros [F1 F2] [G1 G2]. split; simpl; apply @is_RInt_minus; assumption. Qed.
+Lemma cRInt_const0 a b : cRInt (fun _ => 0c) a b 0c.
+Proof.
+  split; simpl; (evar_last; [apply @is_RInt_const | unfold scal; simpl; unfold mult; simpl; ring]).
+Qed.
+Lemma cRInt_cmul_l z f a b l : cRInt f a b l -> cRInt (fun t => cmul' z (f t)) a b (cmul' z l).
+Proof.
+  intros [F1 F2]. split; simpl.
+  - apply @is_RInt_minus; apply (is_RInt_scal (V:=R_NormedModule)); assumption.
+  - apply @is_RInt_plus; apply (is_RInt_scal (V:=R_NormedModule)); assumption.
+Qed.
+Lemma cRInt_csumn n (f : nat -> R -> Cx) a b (l : nat -> Cx) : (forall k, (k < n)%nat -> cRInt (f k) a b (l k)) ->
+  cRInt (fun t => csumn' n (fun k => f k t)) a b (csumn' n l).
+Proof.
+  induction n; intros H; simpl. apply cRInt_const0.
+  apply cRInt_add. apply IHn; auto. apply H; auto.
+Qed.
+
+(* e^{i x t} * int_0^t e^{i b s} ds *)
+Definition dint (x b t : R) : Cx := cmul' (cexp' (x * t)) (Ic b t, Is b t).
+Lemma dint_components x b t : dint x b t = (dint_re x b t, dint_im x b t).
+Proof. reflexivity. Qed.
+
+Section Commutator.
+Variable d : nat.
+Variables (w : R) (ev : list R) (Cb NT : Mat (T:=R)).
+Notation Om := (fun m n => vg RO ev m - vg RO ev n).
+(* Phi_h(t) = int_0^t e^{iHs} C_h e^{-iHs} ds and N_a(t) = e^{iHt} B_a e^{-iHt} in the eigenbasis *)
+Definition Phi (p q : nat) (t : R) : Cx := cmul' (mget RO Cb p q) (Ic (Om p q) t, Is (Om p q) t).
+Definition Ntil (m n : nat) (t : R) : Cx := cmul' (mget RO NT m n) (cexp' (Om m n * t)).
+(* e^{i w t} [Phi(t), N(t)]_rc *)
+Definition comm_integrand (r c : nat) (t : R) : Cx :=
+  cmul' (cexp' (w * t))
+    (csub' (csumn' d (fun x => cmul' (Phi r x t) (Ntil x c t)))
+           (csumn' d (fun x => cmul' (Ntil r x t) (Phi x c t)))).
+
+Lemma comm_term p q m n t :
+  cmul' (cmul' (mget RO Cb p q) (mget RO NT m n)) (dint (w + Om m n) (Om p q) t)
+  = cmul' (cexp' (w * t)) (cmul' (Phi p q t) (Ntil m n t)).
+Proof.
+  unfold dint, Phi, Ntil. replace ((w + Om m n) * t) with (w * t + Om m n * t) by ring.
+  rewrite cexp_add. ring.
+Qed.
+
+Variables (thr_dE thr_x thr_y dt : R).
+Hypothesis thr_pos : 0 < thr_dE /\ 0 < thr_x /\ 0 < thr_y.
+(* a masked quantity is masked only when it is exactly zero (no Taylor-branch approximation involved) *)
+Hypothesis mask_exact : forall p q m n, (p < d)%nat -> (q < d)%nat -> (m < d)%nat -> (n < d)%nat ->
+  (Rabs (di_b ev p q) < thr_dE -> di_b ev p q = 0) /\
+  (Rabs (di_x w ev m n) < thr_x -> di_x w ev m n = 0) /\
+  (Rabs (di_x w ev m n + di_b ev p q) < thr_y -> di_x w ev m n + di_b ev p q = 0).
+
+Lemma DI_cRInt p q m n : (p < d)%nat -> (q < d)%nat -> (m < d)%nat -> (n < d)%nat ->
+  cRInt (dint (w + Om m n) (Om p q)) 0 dt (deriv_integral_entry RO (thr_dE, thr_x, thr_y) w ev dt p q m n).
+Proof.
+  intros Hp Hq Hm Hn. destruct thr_pos as [T1 [T2 T3]].
+  destruct (mask_exact p q m n Hp Hq Hm Hn) as [M1 [M2 M3]].
+  exact (deriv_integral_cases thr_dE thr_x thr_y w ev dt p q m n T1 T2 T3 M1 M2 M3).
+Qed.
+
+(* M (general branch) is the integral over the segment of e^{i w t} [Phi_h(t), N_a(t)]: with Duhamel's
+   formula d/du e^{-iHt} = -i e^{-iHt} Phi_h(t) this is (1/i times) the derivative of the segment's
+   control-matrix integrand, integrated.                                                           *)
+Theorem Mgen_commutator_integral r c : (r < d)%nat -> (c < d)%nat ->
+  cRInt (comm_integrand r c) 0 dt
+        (Mgen_entry RO d (deriv_integral_entry RO (thr_dE, thr_x, thr_y) w ev dt) Cb NT r c).
+Proof.
+  intros Hr Hc. unfold Mgen_entry, M1_entry, M2_entry.
+  apply (cRInt_ext (fun t => csub'
+           (csumn' d (fun x => cmul' (cmul' (mget RO Cb r x) (mget RO NT x c)) (dint (w + Om x c) (Om r x) t)))
+           (csumn' d (fun x => cmul' (cmul' (mget RO NT r x) (mget RO Cb x c)) (dint (w + Om r x) (Om x c) t))))).
+  { intros t. unfold comm_integrand.
+    rewrite (csumn_ext d _ (fun x => cmul' (cexp' (w * t)) (cmul' (Phi r x t) (Ntil x c t))))
+      by (intros x _; apply comm_term).
+    rewrite (csumn_ext d (fun x => cmul' (cmul' (mget RO NT r x) (mget RO Cb x c)) _)
+                         (fun x => cmul' (cexp' (w * t)) (cmul' (Ntil r x t) (Phi x c t)))).
+    2:{ intros x _. rewrite (cmul_comm (mget RO NT r x)). rewrite comm_term. ring. }
+    rewrite !csumn_mul_l. ring. }
+  apply cRInt_sub.
+  - apply (cRInt_csumn d (fun x t => cmul' (cmul' (mget RO Cb r x) (mget RO NT x c)) (dint (w + Om x c) (Om r x) t))).
+    intros x Hx. apply cRInt_cmul_l. apply DI_cRInt; auto.
+  - apply (cRInt_csumn d (fun x t => cmul' (cmul' (mget RO NT r x) (mget RO Cb x c)) (dint (w + Om r x) (Om x c) t))).
+    intros x Hx. apply cRInt_cmul_l. apply DI_cRInt; auto.
+Qed.
+(* the per-segment derivative (general branch, without the sensitivity term):
+   i e^{i w t_g} int_0^dt e^{i w t} tr( Cbar_j [Phi_h(t), N_a(t)] ) dt *)
+Theorem step_deriv_commutator_integral (phase : Cx) (BTj : Mat (T:=R)) :
+  cRInt (fun t => cmul' phase (csumn' d (fun n => csumn' d (fun k =>
+                    cmul' (cmul' ic (mget RO BTj n k)) (comm_integrand k n t))))) 0 dt
+        (step_deriv_entry RO d phase BTj
+           (mbuild d d (Mgen_entry RO d (deriv_integral_entry RO (thr_dE, thr_x, thr_y) w ev dt) Cb NT))).
+Proof.
+  unfold step_deriv_entry. apply cRInt_cmul_l.
+  apply (cRInt_csumn d (fun n t => csumn' d (fun k => cmul' (cmul' ic (mget RO BTj n k)) (comm_integrand k n t)))).
+  intros n Hn.
+  apply (cRInt_csumn d (fun k t => cmul' (cmul' ic (mget RO BTj n k)) (comm_integrand k n t))).
+  intros k Hk. rewrite mget_mbuild by auto. apply cRInt_cmul_l. apply Mgen_commutator_integral; auto.
+Qed.
+End Commutator.
+
+(* ================================================================== I. the sensitivity term *)
+(* ctrlmat_step = s * b is linear in the sensitivity s; its derivative through s(u) is s'(u) * b.  The code
+   computes (s'/s) * ctrlmat_step: correct for s <> 0 ... *)
+Theorem sens_term_correct (ncd s : R) (b : Cx) : s <> 0 ->
+  sens_term RO ncd s (cscal RO s b) = cscal RO ncd b.
+Proof. intros Hs. unfold sens_term. apply c_eq; csimp; field; auto. Qed.
+(* ... and wrong for s = 0 (0/0 in floating point; over the reals the term vanishes instead of being s' * b) *)
+Theorem sens_term_refuted : exists (ncd : R) (b : Cx), sens_term RO ncd 0 (cscal RO 0 b) <> cscal RO ncd b.
+Proof.
+  exists 1, 1c. unfold sens_term. intros H. apply (f_equal fst) in H. revert H. csimp. intros H.
+  rewrite !Rmult_0_l, Rmult_0_r in H. lra.
+Qed.
+(* product rule for s(u) * b(u) in the form the code uses: s * b' + (s'/s) * (s * b) *)
+Theorem sens_product_rule (s : R -> R) (b : R -> Cx) u ds db : s u <> 0 ->
+  is_derive s u ds -> cderive b u db ->
+  cderive (fun v => cscal RO (s v) (b v)) u
+          (cadd' (cscal RO (s u) db) (sens_term RO ds (s u) (cscal RO (s u) (b u)))).
+Proof.
+  intros Hs Ds Db. rewrite sens_term_correct by auto. rewrite cadd_comm. apply cderive_cscal; auto.
+Qed.
